@@ -20,7 +20,7 @@ static FunctionIndex get_function(CPPInstance *function, std::string description
 // the guard of get_function that refuses constructors of abstract classes (block R5; the tail `return 1;` stands for "the
 // function goes on and registers the function")
 static bool vin_is_abstract;
-//@block src/interrogate/interrogateBuilder.cxx "start=  if ((ftype->_flags & CPPFunctionType::F_constructor) &&" "end=  TypeIndex class_index = 0;" "head=int vu_abstract_guard(CPPFunctionType *ftype, CPPStructType *struct_type, int flags)" include_end=0 "tail=return 1;"
+//@block src/interrogate/interrogateBuilder.cxx "start=  function->_type = ftype;" start_ordinal=0 "end=  TypeIndex class_index = 0;" "head=int vu_abstract_guard(CPPInstance *function, CPPFunctionType *ftype, CPPStructType *struct_type, int flags)" include_end=0 "tail=return 1;"
 }
 using namespace builder;
 bool CPPStructType::is_abstract() const { return builder::vin_is_abstract; }
@@ -48,7 +48,8 @@ void h_no_constructor_for_abstract_class() {
   int vin_ftype_flags = nondet_int(), vin_flags = nondet_int(); bool vin_member = nondet_bool();
   CPPFunctionType ft(&ret, &pl, vin_ftype_flags);
   builder::vin_is_abstract = nondet_bool();
-  int r = builder::vu_abstract_guard(&ft, vin_member ? &cls : (CPPStructType *)0, vin_flags);
+  static CPPInstance fn((CPPType *)0, std::string("S"));
+  int r = builder::vu_abstract_guard(&fn, &ft, vin_member ? &cls : (CPPStructType *)0, vin_flags);
   bool is_ctor = (vin_ftype_flags & CPPFunctionType::F_constructor) != 0;
   OBL((r == 0) == (is_ctor && vin_member && builder::vin_is_abstract), "C10.get_function: a constructor (declared or synthesised) of an abstract class is never registered; every other function is");
   VU_REACHED();
